@@ -768,6 +768,7 @@ func c14JudgeHist(w *mon.W, c c14Case) {
 	if lin {
 		pre = "lin:"
 	}
+	onlyZeros := true // every value added so far is 0 or -0
 	for k, x := range xs {
 		w.Eval(op + ".Add")
 		slot, alt, exact := hr.Slot(x)
@@ -780,6 +781,15 @@ func c14JudgeHist(w *mon.W, c c14Case) {
 		w.HitIf(lin && math.IsInf(x/((max-min)/float64(n))-min/((max-min)/float64(n)), 0), "lin:bin-index-overflows-float64")
 		w.HitIf(!lin && x > 0 && x < 1e-300, "log:sample-below-1e-300")
 		w.HitIf(!lin && x == 0, "log:zero-sample")
+		// zero (the zero value of any remembered "last sample"), first Adds and
+		// repeats: from the stream and the reference slot of the value only
+		w.HitIf(x == 0 && slot != 0 && alt != 0, pre+"zero-sample-outside-first-bin")
+		w.HitIf(k == 0 && x == 0, pre+"first-sample-zero")
+		w.HitIf(k == 0 && x == 0 && slot != 0 && alt != 0, pre+"first-sample-zero-outside-first-bin")
+		w.HitIf(k > 0 && x == 0 && onlyZeros && slot != 0 && alt != 0, pre+"zero-after-only-zeros-outside-first-bin")
+		w.HitIf(k == 0 && math.Abs(x) == math.MaxFloat64, pre+"first-sample-extreme")
+		w.HitIf(k > 0 && x == xs[k-1], pre+"sample-repeats-previous")
+		onlyZeros = onlyZeros && x == 0
 		w.HitIf(!lin && x < 0, "log:negative-sample")
 		if slot == alt {
 			w.HitIf(slot == -1 && x > width, pre+"below-first-edge-within-width")
@@ -1270,6 +1280,47 @@ func c14LogValues(rng *mon.Rand, b, m, n, count int) []float64 {
 	return xs
 }
 
+// c14Specials overlays a generated stream with the values a histogram can
+// mistake for its own untouched state: zeros (lin only; LogHist streams have
+// them already), immediate repeats of the previous value, and, in a share of
+// the cases, a first value (or a leading run) of 0 / -0 or a first value of
+// +-MaxFloat64. The length of the stream is unchanged.
+func c14Specials(rng *mon.Rand, xs []float64, lin bool) {
+	if len(xs) == 0 {
+		return
+	}
+	zero := func() float64 {
+		if rng.Bool() {
+			return math.Copysign(0, -1)
+		}
+		return 0
+	}
+	for i := range xs {
+		switch rng.Intn(40) {
+		case 0:
+			if lin {
+				xs[i] = zero()
+			}
+		case 1, 2:
+			if i > 0 {
+				xs[i] = xs[i-1]
+			}
+		}
+	}
+	switch rng.Intn(8) {
+	case 0, 1:
+		run := 1
+		if rng.Intn(3) == 0 {
+			run = rng.Range(2, 6)
+		}
+		for i := 0; i < run && i < len(xs); i++ {
+			xs[i] = zero()
+		}
+	case 2:
+		xs[0] = rng.Sign() * math.MaxFloat64
+	}
+}
+
 // c14History draws the phase of the harness's BinToValue checks and how
 // often Counts() is read, for a stream of L values.
 func c14History(rng *mon.Rand, c *c14Case, L int) {
@@ -1297,7 +1348,7 @@ func c14History(rng *mon.Rand, c *c14Case, L int) {
 }
 
 func c14Run(r *mon.Run) {
-	r.Rule("LinearHist: 1..50 bins, min<max of either sign, magnitudes 1e-290..1e290 and (1 shape in 12) up to +-8e307 with ranges up to 1.6e308, range/scale >= 1e-6, plus dyadic shapes (power-of-two bin count and width) judged with a zero window; LogHist: bases 2..10, m 1..4, 1..50 bins for every base and m (top edge up to 1e50); streams of 0..500 values from 1e60 ranges below to 1e60 ranges above, plus values of a size independent of the shape (+-1e100..+-MaxFloat64, for LinearHist aimed at a bin index beyond float64; LogHist also down to 5e-324), dense within one bin width below the first edge and around every edge (LogHist: also 1.25..40 window half-widths off an edge), LogHist streams with about 1 in 60 values zero, -0 or negative (reference: under count); in 1 case of 3 Counts() of the fresh histogram is not read (start state all zero by definition; LogHist bin count from a second instance) so that the first Adds run on an untouched histogram; after every Add (in 3 of 10 cases: after every batch of 2..40 Adds or of the whole stream) a private copy of Counts() must differ from the previous one in exactly one counter by +1, and that counter must be the reference slot (384-bit edges; window 1e-12*max(|min|,|max|) linear, 32*2^-52*max(1,ln edge) relative logarithmic: either side accepted; per batch: no counter decreases and the increments match the multiset of reference slots); BinToValue: edges, eighths grid strictly increasing, interpolation law, 12 reference points per shape, run on the fresh histogram, mid-stream, after the stream, after the final queries or never (the harness calls BinToValue for nothing else before that point); HistogramQuantile on ~20 arguments per checkpoint incl. 0, 1 and rank boundaries j/total: each call judged against both rank readings (NaN iff a reading is outside the bins, value inside the rank interval of a reading), all answers on one histogram state explained by one and the same reading (else quantile-mixed-readings), non-decreasing, counters untouched; HistogramIQR = Q(.75)-Q(.25). Harness-defined histograms: every count vector (under, <=3 bins, over each 0..3; thorough 0..4 with <=4 bins) x q=k/12 and k/7, three BinToValue shapes, call budget 4096. Non-trivial: hits a class; distinct by hash of (shape, stream, queries).")
+	r.Rule("LinearHist: 1..50 bins, min<max of either sign, magnitudes 1e-290..1e290 and (1 shape in 12) up to +-8e307 with ranges up to 1.6e308, range/scale >= 1e-6, plus dyadic shapes (power-of-two bin count and width) judged with a zero window; LogHist: bases 2..10, m 1..4, 1..50 bins for every base and m (top edge up to 1e50); streams of 0..500 values from 1e60 ranges below to 1e60 ranges above, plus values of a size independent of the shape (+-1e100..+-MaxFloat64, for LinearHist aimed at a bin index beyond float64; LogHist also down to 5e-324), dense within one bin width below the first edge and around every edge (LogHist: also 1.25..40 window half-widths off an edge), LogHist streams with about 1 in 60 values zero, -0 or negative (reference: under count); LinearHist streams with about 1 in 40 values 0 or -0 whatever the range, every stream with about 1 value in 20 an immediate repeat of the previous one, in 1 case of 4 the first value (1 in 3 of those: the first 2..6 values) is 0 / -0 and in 1 case of 8 it is +-MaxFloat64, so that the first Add on a fresh histogram is a value an uninitialised remembered sample would match; in 1 case of 3 Counts() of the fresh histogram is not read (start state all zero by definition; LogHist bin count from a second instance) so that the first Adds run on an untouched histogram; after every Add (in 3 of 10 cases: after every batch of 2..40 Adds or of the whole stream) a private copy of Counts() must differ from the previous one in exactly one counter by +1, and that counter must be the reference slot (384-bit edges; window 1e-12*max(|min|,|max|) linear, 32*2^-52*max(1,ln edge) relative logarithmic: either side accepted; per batch: no counter decreases and the increments match the multiset of reference slots); BinToValue: edges, eighths grid strictly increasing, interpolation law, 12 reference points per shape, run on the fresh histogram, mid-stream, after the stream, after the final queries or never (the harness calls BinToValue for nothing else before that point); HistogramQuantile on ~20 arguments per checkpoint incl. 0, 1 and rank boundaries j/total: each call judged against both rank readings (NaN iff a reading is outside the bins, value inside the rank interval of a reading), all answers on one histogram state explained by one and the same reading (else quantile-mixed-readings), non-decreasing, counters untouched; HistogramIQR = Q(.75)-Q(.25). Harness-defined histograms: every count vector (under, <=3 bins, over each 0..3; thorough 0..4 with <=4 bins) x q=k/12 and k/7, three BinToValue shapes, call budget 4096. Non-trivial: hits a class; distinct by hash of (shape, stream, queries).")
 	r.Assume("ambiguity: a value within 1e-12*max(|min|,|max|) (linear) or 32*2^-52*max(1,ln edge) relative (log: the error bound of any float64 evaluation of m*log_b(x) - ln, log2, log10 based - or of a comparison with float64 edges, with a factor >= 3.5 to spare; see ref.LogWindow) of a reference edge may be counted on either side; zero window only for dyadic linear shapes with exact x-min, where every float64 formula for the bin index is exact",
 		"rank: g=floor(q*total) in exact arithmetic; also accepted: the floor of the correctly rounded float64 product, and k when q is exactly float64(k)/float64(total); the ranked sample is the one of 0-based index g throughout or g-1 throughout (per histogram state; where a reading names no sample at all - 0-based at q=1, 1-based for q*total<1 - NaN and clamping to the last/first sample both count as that reading); a numeric answer must lie in [BinToValue(bin+k/c), BinToValue(bin+(k+1)/c)] for the k-th of c samples of its bin under one of the readings",
 		"domain: all finite values up to +-MaxFloat64; linear shapes with |min|,|max| <= 1.6e308 and a range width max-min between 1e-290 and 1.6e308 (finite in float64) that is at least 1e-6 of max(|min|,|max|); LogHist values finite, of either sign and zero (non-positive values are below the first bin), positive ones from 5e-324 to MaxFloat64, LogHist max > 1; the bin count of a LogHist is taken from Counts() (the statement does not fix it)",
@@ -1311,7 +1362,10 @@ func c14Run(r *mon.Run) {
 		"add-before-any-harness-bintovalue", "counts-read-per-batch",
 		"add-before-any-counts-read", "add-to-untouched-histogram",
 		"lin:bin-index-overflows-float64", "lin:sample-beyond-1e306", "log:sample-beyond-1e306", "log:sample-below-1e-300",
-		"lin:range-beyond-3.6e306", "log:sharp-within-1e-12-of-edge", "log:sharp-within-1e-12-below-edge")
+		"lin:range-beyond-3.6e306", "log:sharp-within-1e-12-of-edge", "log:sharp-within-1e-12-below-edge",
+		"lin:zero-sample-outside-first-bin", "lin:first-sample-zero", "lin:first-sample-zero-outside-first-bin", "lin:zero-after-only-zeros-outside-first-bin",
+		"log:first-sample-zero", "log:first-sample-zero-outside-first-bin", "log:zero-after-only-zeros-outside-first-bin",
+		"lin:first-sample-extreme", "log:first-sample-extreme", "lin:sample-repeats-previous", "log:sample-repeats-previous")
 	if err := ref.HistSelfTest(); err != nil {
 		r.Inconclusive("reference self-test failed: " + err.Error())
 		return
@@ -1408,10 +1462,12 @@ func c14Run(r *mon.Run) {
 		}
 		L := c14Len(rng)
 		c := c14Case{Kind: "lin", Min: mon.F(min), Max: mon.F(max), NBins: n, Grid: true, QDerive: true, IQR: true}
-		c.Xs = mon.Fs(c14LinValues(rng, min, max, n, L))
+		xs := c14LinValues(rng, min, max, n, L)
 		c.Qs = mon.Fs(c14Qs(rng, L))
 		c.QEvery = qevery(rng, L)
 		c14History(rng, &c, L)
+		c14Specials(rng, xs, true)
+		c.Xs = mon.Fs(xs)
 		c14JudgeHist(w, c)
 	})
 	r.Parallel("lin-dyadic", r.Pick(800, 5000), func(w *mon.W, i int) {
@@ -1419,10 +1475,12 @@ func c14Run(r *mon.Run) {
 		min, max, n := c14DyadicShape(rng)
 		L := c14Len(rng)
 		c := c14Case{Kind: "lin", Min: mon.F(min), Max: mon.F(max), NBins: n, Grid: true, QDerive: true, IQR: true}
-		c.Xs = mon.Fs(c14DyadicValues(rng, min, max, n, L))
+		xs := c14DyadicValues(rng, min, max, n, L)
 		c.Qs = mon.Fs(c14Qs(rng, L))
 		c.QEvery = qevery(rng, L)
 		c14History(rng, &c, L)
+		c14Specials(rng, xs, true)
+		c.Xs = mon.Fs(xs)
 		c14JudgeHist(w, c)
 	})
 	r.Parallel("log-random", r.Pick(1500, 10000), func(w *mon.W, i int) {
@@ -1431,10 +1489,12 @@ func c14Run(r *mon.Run) {
 		L := c14Len(rng)
 		c := c14Case{Kind: "log", B: b, M: m, Max: mon.F(max), Grid: true, QDerive: true, IQR: true}
 		// values are laid out for the nominal n bins; the library may have n or n+1
-		c.Xs = mon.Fs(c14LogValues(rng, b, m, n, L))
+		xs := c14LogValues(rng, b, m, n, L)
 		c.Qs = mon.Fs(c14Qs(rng, L))
 		c.QEvery = qevery(rng, L)
 		c14History(rng, &c, L)
+		c14Specials(rng, xs, false)
+		c.Xs = mon.Fs(xs)
 		c14JudgeHist(w, c)
 	})
 }
